@@ -214,8 +214,19 @@ pub(crate) struct CommentCapture {
 }
 
 impl CommentCapture {
-    pub(crate) fn new(source: &str, entities: &[SpannedEntity]) -> Self {
-        let comments = CommentBlocks::new(source).collect();
+    /// Capture the comments that lie outside the `copied` source ranges. A verbatim payload is
+    /// copied with its comments, so capturing them as well would emit them a second time.
+    pub(crate) fn new(
+        source: &str, entities: &[SpannedEntity], copied: &[Range<usize>],
+    ) -> Self {
+        let comments = CommentBlocks::new(source)
+            .collect()
+            .into_iter()
+            .filter(|comment| {
+                let range = comment.range();
+                !copied.iter().any(|copied| copied.start <= range.start && range.end <= copied.end)
+            })
+            .collect::<Vec<_>>();
         let anchors = comments
             .iter()
             .map(|comment| Self::leading_anchor(comment, entities))
